@@ -84,7 +84,7 @@ func coqSteps(steps []Step) string {
 	items := make([]string, len(steps))
 	for i, s := range steps {
 		tag, arg := s.Op, s.Arg
-		if tag == opProp {
+		if tag == opProp || tag == opSelf || tag == opErrH {
 			tag, arg = 0, 0
 		}
 		if tag == opTracer || tag == opInstall || tag == opInstallT {
@@ -98,7 +98,7 @@ func coqSteps(steps []Step) string {
 	return vgen.List(items)
 }
 
-var opNames = []string{"none", "Meter", "Inst", "Record", "Register", "Unregister", "SetMeterProvider", "Tracer", "Span", "SetTracerProvider", "SetTextMapPropagator"}
+var opNames = []string{"none", "Meter", "Inst", "Record", "Register", "Unregister", "SetMeterProvider", "Tracer", "Span", "SetTracerProvider", "SetTextMapPropagator", "Set*(current global value): 0 tracer 1 meter 2 propagator", "SetErrorHandler"}
 
 func descSteps(steps []Step) []string {
 	out := make([]string, len(steps))
@@ -112,12 +112,27 @@ func descSteps(steps []Step) []string {
 			if s.CB {
 				out[j] += fmt.Sprintf(" with creation-time callback %d", j)
 			}
+			if s.Bad > 0 {
+				out[j] += fmt.Sprintf(" name class %d (1 leading digit, 2 empty, 3 256 chars, 4 bad character, 5 255 chars)", s.Bad)
+			}
 		case opRegister:
 			out[j] = fmt.Sprintf("%d: RegisterCallback on meter %d instruments %v -> registration %d", j, s.Arg, s.Obs, j)
 		case opRecord:
 			out[j] = fmt.Sprintf("%d: record measurement %d on instrument %d", j, j, s.Arg)
 		default:
 			out[j] = fmt.Sprintf("%d: %s %d", j, opNames[s.Op], s.Arg)
+			if s.Same > 0 {
+				out[j] += fmt.Sprintf(" (identity of %d again)", s.Same-(map[bool]int{true: 1, false: 0})[s.Op == opMeter])
+			}
+			if s.Opt {
+				out[j] += " +version/schema/attributes"
+			}
+			if s.Via == 1 {
+				out[j] += " via otel.Meter/otel.Tracer"
+			}
+			if s.Prov == 1 {
+				out[j] += " (provider value of a non-comparable type)"
+			}
 		}
 	}
 	return out
@@ -133,7 +148,7 @@ func main() {
 	o := vgen.ParseFlags()
 	_ = child
 	r := vgen.NewRand(o.Seed)
-	w := vgen.NewWriter(o.Out, "C16.Spec C16.Model C16.Corr", "case", 96)
+	w := vgen.NewWriter(o.Out, "C16.Spec C16.Model C16.Corr", "case", 150)
 	w.Rule = "a scenario counts as non-trivial when an SDK was installed in it and at least one measurement, span or callback registration reached the SDK through an object handed out by the global API"
 
 	var scs []Scenario
@@ -146,7 +161,7 @@ func main() {
 	for i, d := range []int{0, 50, 150, 400, 1000, 2500} {
 		// F-C16-1 (repaired by 79987fb): Unregister racing SetMeterProvider over many registrations
 		add("corpus-F-C16-1", Scenario{Kind: "storm", Storm: &Storm{Seed: uint64(1000 + i), Meters: 1 + i%2, PreInsts: 2, PreRegs: []int{200, 60}[i%2], PreUnreg: 3,
-			Unregs: 6, Sweep: true, Installers: 1, Delay: d, Iter: 1, WatchdogS: 20}})
+			Unregs: 6, Sweep: true, Installers: 1, Delay: d, Iter: 1, WatchdogS: 60}})
 	}
 	for _, c := range seqCorpus() {
 		add("corpus-seq", Scenario{Kind: "seq", Steps: c})
@@ -163,7 +178,7 @@ func main() {
 		add("seq-random", Scenario{Kind: "seq", Steps: randomProgram(r.Fork())})
 	}
 	// ---- concurrent storms ----
-	nStorm := o.Count(260, 1500)
+	nStorm := o.Count(200, 1500)
 	for i := 0; i < nStorm; i++ {
 		add("storm", Scenario{Kind: "storm", Storm: randomStorm(r.Fork())})
 	}
@@ -178,7 +193,7 @@ func main() {
 		}
 		add("flood-"+side, Scenario{Kind: "flood", Flood: &Flood{Seed: fr.U64(), Side: side, Goroutines: fr.Range(4, 8),
 			PerG: vgen.Pick(fr, []int{2000, 4000, 6000}), DelayUs: vgen.Pick(fr, []int{300, 1000, 3000, 8000, 20000}),
-			TailUs: vgen.Pick(fr, []int{200, 2000, 10000}), WatchdogS: 30}})
+			TailUs: vgen.Pick(fr, []int{200, 2000, 10000}), WatchdogS: 60}})
 	}
 
 	// ---- overlapping installation calls against a slow SDK ----
@@ -191,7 +206,7 @@ func main() {
 		}
 		add("overlap-"+side, Scenario{Kind: "overlap", Overlap: &Overlap{Seed: fr.U64(), Side: side, Handles: fr.Range(60, 200),
 			Installers: fr.Range(2, 3), Same: fr.Bool(), SlowUs: vgen.Pick(fr, []int{50, 150, 300}), Probes: 25,
-			StaggerUs: vgen.Pick(fr, []int{0, 100, 1000, 5000}), WatchdogS: 30}})
+			StaggerUs: vgen.Pick(fr, []int{0, 100, 1000, 5000}), WatchdogS: 60}})
 	}
 
 	bin, _ := os.Executable()
@@ -238,9 +253,9 @@ func runAll(bin string, scs []Scenario, labels []string, race bool) []outcome {
 		go func(i int) {
 			defer wg.Done()
 			defer func() { <-sem }()
-			limit := 45 * time.Second
+			limit := 150 * time.Second
 			if race {
-				limit = 120 * time.Second
+				limit = 400 * time.Second
 			}
 			t0 := time.Now()
 			res, errs, stderr := runChild(bin, scs[i], limit)
@@ -332,7 +347,18 @@ func judge(w *vgen.Writer, oc outcome) {
 				cbs = append(cbs, fmt.Sprint(j))
 			}
 		}
-		term := vgen.App("CSeq", coqSteps(oc.sc.Steps), vgen.List(cbs), coqHist(res.Events), coqLive(res.Live))
+		br, bc := badLists(oc.sc.Steps)
+		ints := func(l []int) string {
+			out := make([]string, len(l))
+			for i, v := range l {
+				out[i] = fmt.Sprint(v)
+			}
+			return vgen.List(out)
+		}
+		if len(br)+len(bc) > 0 {
+			w.Tally("seq:with-SDK-rejected-instrument-name")
+		}
+		term := vgen.App("CSeq", coqSteps(oc.sc.Steps), vgen.List(cbs), ints(br), ints(bc), coqHist(res.Events), coqLive(res.Live))
 		w.Add(term, desc, oc.label, nontrivial)
 	} else {
 		desc["stats"] = res.Stats
